@@ -32,6 +32,9 @@ pub enum Op {
     SetChunk { frac: u16 },
     SetChunkRaw { size: usize },
     Reset,
+    /// process_into_buffer with valid input and every output channel 1 + cut frames too short (at least empty):
+    /// must be rejected without touching anything; recorded like a rejected control call (C09 measures it)
+    ShortOut { cut: u8 },
 }
 
 impl Op {
@@ -381,6 +384,42 @@ impl<T: SampleX> Interp<T> {
                 self.do_set_chunk(i, *size, tr);
                 Some(())
             }
+            Op::ShortOut { cut } => {
+                let before = self.res.getters();
+                if before.out_next == 0 {
+                    return Some(());
+                }
+                let need = before.in_next;
+                for c in 0..ch {
+                    let mut v = std::mem::take(&mut self.inbuf[c]);
+                    v.clear();
+                    for k in 0..need {
+                        v.push(self.sample(sig, c, self.pos + k as u64));
+                    }
+                    self.inbuf[c] = v;
+                }
+                let out_len = before.out_next - 1 - (*cut as usize).min(before.out_next - 1);
+                let sent = T::sentinel();
+                for c in 0..ch {
+                    let v = &mut self.outbuf[c];
+                    v.clear();
+                    v.resize(out_len, sent);
+                }
+                let a0 = alloc::get();
+                let r = self.res.pib(&self.inbuf, &mut self.outbuf, None);
+                let a1 = alloc::get();
+                let after = self.res.getters();
+                match r {
+                    Err(e) => tr.steps.push(self.set_step(i, before, after, StepRes::Set(Err(classify(&e))), a1 - a0, None, None)),
+                    Ok(_) => {
+                        // accepted although too short (C13's clause): the stream position is unknown from here on
+                        tr.steps.push(self.set_step(i, before, after, StepRes::Set(Ok(())), a1 - a0, None, None));
+                        tr.stuck = true;
+                        return None;
+                    }
+                }
+                Some(())
+            }
             Op::Reset => {
                 let before = self.res.getters();
                 let a0 = alloc::get();
@@ -590,10 +629,12 @@ pub struct OpSpace {
     pub chunk: bool,
     pub reset: bool,
     pub masks: bool,
+    /// processing calls with too short output buffers (rejected; only C09 asks for them)
+    pub malformed: bool,
 }
 impl OpSpace {
     pub fn all() -> OpSpace {
-        OpSpace { partial: true, alloc_path: true, ratio: true, chunk: true, reset: true, masks: true }
+        OpSpace { partial: true, alloc_path: true, ratio: true, chunk: true, reset: true, masks: true, malformed: false }
     }
 }
 
@@ -626,6 +667,9 @@ pub fn op_strategy(sp: OpSpace) -> BoxedStrategy<Op> {
     }
     if sp.reset {
         v.push((1, Just(Op::Reset).boxed()));
+    }
+    if sp.malformed {
+        v.push((1, prop_oneof![Just(0u8), any::<u8>()].prop_map(|cut| Op::ShortOut { cut }).boxed()));
     }
     proptest::strategy::Union::new_weighted(v).boxed()
 }
